@@ -28,6 +28,22 @@ func declarationName(line string, keywords ...string) (string, bool) {
 	return name, true
 }
 
+// isTypeDeclaration reports whether the line opens a "type x" or "extend type x" block: after the name
+// only a comment may follow. The continuation line of a type restriction spread over several lines
+// can begin with the same words ("type with cond]" restricts to a type that is called type).
+func isTypeDeclaration(line string) bool {
+	fields := strings.Fields(line)
+	if len(fields) > 0 && fields[0] == "extend" {
+		fields = fields[1:]
+	}
+
+	if len(fields) < 2 || fields[0] != "type" {
+		return false
+	}
+
+	return len(fields) == 2 || strings.HasPrefix(fields[2], "#")
+}
+
 func GetConditionLineNumber(conditionName string, lines []string) int {
 	return slices.IndexFunc(lines, func(line string) bool {
 		name, ok := declarationName(line, "condition")
@@ -69,11 +85,7 @@ func GetExtendedRelationLineNumber(typeName string, relation string, lines []str
 	}
 
 	for index := start + 1; index < len(lines); index++ {
-		if _, ok := declarationName(lines[index], "type"); ok {
-			break
-		}
-
-		if _, ok := declarationName(lines[index], "extend", "type"); ok {
+		if isTypeDeclaration(lines[index]) {
 			break
 		}
 
